@@ -18,7 +18,8 @@ FORBIDDEN = re.compile(
 class Lock:
     def __enter__(self):
         os.makedirs(RUN_DIR, exist_ok=True)
-        self.f = open(os.path.join(RUN_DIR, "lake.lock"), "w")
+        # one lock per lake project directory (runs against scratch copies of the repository have their own)
+        self.f = open(os.path.join(RUN_DIR, "lake-%s.lock" % os.path.basename(LEAN_DIR.rstrip("/"))), "w")
         fcntl.flock(self.f, fcntl.LOCK_EX)
         return self
 
@@ -32,8 +33,12 @@ def lake_build(targets=("Abnf", "driver"), timeout=3000):
     with Lock():
         t0 = time.time()
         if LEAN_DIR != lib.LEAN_SRC_DIR:
-            os.makedirs(LEAN_DIR, exist_ok=True)
-            subprocess.run(["rsync", "-a", "--delete", "--exclude", "AbnfGen/*.lean", lib.LEAN_SRC_DIR + "/", LEAN_DIR + "/"], check=True)
+            if not os.path.isdir(os.path.join(LEAN_DIR, ".lake")):
+                # first use: start from the built project (sources and build products), so only what differs is rebuilt
+                os.makedirs(LEAN_DIR, exist_ok=True)
+                subprocess.run(["rsync", "-a", "--exclude", "AbnfGen/*.lean", lib.LEAN_SRC_DIR + "/", LEAN_DIR + "/"], check=True)
+            else:
+                subprocess.run(["rsync", "-a", "--delete", "--exclude", "AbnfGen/*.lean", "--exclude", ".lake", lib.LEAN_SRC_DIR + "/", LEAN_DIR + "/"], check=True)
         # regenerate the data files from the repository's current working tree (fresh interpreter)
         import extract
         try:
